@@ -35,23 +35,27 @@ class CallTimeout(BaseException):
 # Calls into the code under test take milliseconds to a few seconds; one that
 # has not returned after this many seconds (generous enough for a loaded
 # machine) is reported as "does not return" instead of hanging the check.
-CALL_LIMIT_S = float(os.environ.get("VERIF_CALL_LIMIT_S", "600"))
+CALL_LIMIT_S = float(os.environ.get("VERIF_CALL_LIMIT_S", "300"))
 _depth = [0]
+_timeouts = [0]   # after two calls of this process did not return, further calls are not attempted
 
 
 def _expired(signum, frame):
     raise CallTimeout()
 
 
-def safe(fn, *args, **kwargs):
+def safe(fn, *args, _limit=None, **kwargs):
     """Call into the code under test; an exception becomes a Raised value (it is
     a finding about the code, never a failure of the machinery), and so does a
-    call that does not return within CALL_LIMIT_S."""
+    call that does not return within CALL_LIMIT_S (or `_limit` seconds)."""
     armed = False
+    limit = CALL_LIMIT_S if _limit is None else _limit
+    if _timeouts[0] >= 2 and _depth[0] == 0:
+        return Raised(TimeoutError("not attempted: two earlier calls into the code under test did not return"))
     if _depth[0] == 0 and threading.current_thread() is threading.main_thread():
         try:
             signal.signal(signal.SIGALRM, _expired)
-            signal.setitimer(signal.ITIMER_REAL, CALL_LIMIT_S)
+            signal.setitimer(signal.ITIMER_REAL, limit)
             armed = True
         except (ValueError, OSError):
             armed = False
@@ -61,7 +65,8 @@ def safe(fn, *args, **kwargs):
     except CallTimeout:
         if not armed:
             raise
-        err = TimeoutError(f"no result after {CALL_LIMIT_S:.0f} s")
+        _timeouts[0] += 1
+        err = TimeoutError(f"no result after {limit:.0f} s")
         return Raised(err)
     except RecursionError as err:
         return Raised(err)
